@@ -27,6 +27,11 @@ def _clip(v, n, default):
     if v is None:
         return default
     vz, nz = tz(v), tz(n)
+    try:
+        if sym.cur().entails(z3.And(vz >= 0, vz <= nz)):
+            return v
+    except Unsupported:
+        pass
     return wrap(z3.If(vz < 0, z3.If(vz + nz < 0, z3.IntVal(0), vz + nz), z3.If(vz > nz, nz, vz)))
 
 
@@ -66,6 +71,8 @@ class Axis:
         ctx.assume_def(z3.Implies(z3.And(tz(c) >= 1, tz(a) < tz(b)), first.t <= last.t))
         self.first, self.last = first, last
         self.m = last - first + 1
+        ctx.register_quotient(first, a, c)
+        ctx.register_quotient(last, b - 1, c)
 
     def proj(self, interp, j):
         """(chunk coord q, chunk_selection slice, out_selection slice, complete?) for the j-th intersected chunk"""
